@@ -270,7 +270,7 @@ def run(tier, seed):
                             rep.count(len(evs), key=json.dumps([M, gk, sk, pts, a, b]))
                 rep.sample({'M': M, 'grouping': gname, 'slice_version': sname, 'trees': len(order), 'intervals': intervals if M == 3 or tier == 'thorough' else 'one of %s per tree' % (intervals,)}, limit=12)
                 clean = [{'pts': t['pts'], 'events': [{k: v for k, v in e.items() if not k.startswith('_')} for e in t['events']]} for t in traces]
-                verdicts, stt, trn = tlc.validate_traces('RombergTrace', clean, 'c11', constants=consts, chunk=700)
+                verdicts, stt, trn = tlc.validate_traces('RombergTrace', clean, 'c11', constants=consts, chunk=700, unevaluable='C11_SpecEvaluable')
                 rep.cov['states'] += stt
                 rep.cov['transitions'] += trn
                 rep.cov['traces_validated_against_impl'] += len(traces)
